@@ -430,6 +430,70 @@ def oracle_components(case, ctx):
     ctx.ev.case(case, nt=moved, classes=['obs:' + case['obs']] + (['teleport_choice>=2'] if partners >= 2 else []) + (['obstacles_move'] if 'move_obstacles' in case['chain'] and M.find(sd, lambda o: o == 'M') else []))
 
 
+# ------------------------------------------------------------------ (3c) a component that raises
+
+
+def enum_raising(tier, shard, nshards):
+    for i, (where, via) in enumerate([(w, v) for w in ('transition', 'reward') for v in ('step', 'functional')]):
+        if i % nshards == shard:
+            yield {'where': where, 'via': via, 'seed': 11 + i}
+
+
+def oracle_raising(case, ctx):
+    """a user-defined transition / reward function raises for one action; the caller catches the exception and carries on with the
+    same seeded environment.  The global generators (the library's own default generator included) are exactly as before, right after
+    the failed call and after further steps of the seeded environment: nothing of a seeded environment ever reaches them"""
+    from gym_gridverse.action import Action
+    from gym_gridverse.envs.gridworld import GridWorld
+    from gym_gridverse.envs.transition_functions import transition_function_registry as TREG
+
+    class Boom(RuntimeError):
+        pass
+
+    base = envs.build_shipped('gv_dynamic_obstacles.7x7.yaml', case['seed'])
+    acts = list(base.action_space.actions)
+    bad, good = acts[-1], acts[:3]
+
+    def transition(state, action, *, rng=None):
+        if case['where'] == 'transition' and action is bad:
+            raise Boom('user transition failed')
+        for name in ('move_agent', 'turn_agent', 'move_obstacles'):
+            TREG[name](state, action, rng=rng)
+
+    def reward(state, action, next_state, *, rng=None):
+        if case['where'] == 'reward' and action is bad:
+            raise Boom('user reward failed')
+        return 0.0
+
+    e = GridWorld(base.state_space, base.action_space, base.observation_space, base._reset_function, transition, base._observation_function, reward, envs.mk_term({'name': 'reach_exit'}))
+    e.set_seed(case['seed'])
+    reset_gv_rng(5)
+    np.random.seed(5)
+    random.seed(5)
+    e.reset()
+    e.step(good[0])
+    before = snap()
+    for k in range(2):
+        try:
+            if case['via'] == 'step':
+                e.step(bad)
+            else:
+                e.functional_step(e.state, bad)
+        except Boom:
+            pass
+        else:
+            raise HarnessError('the user component did not raise')
+        for a in good:
+            e.step(a)
+            _ = e.observation
+        after = snap()
+        for nm, b_, a_ in zip(('library generator', 'numpy.random', 'random'), before, after):
+            if a_ != b_:
+                ctx.fail(f'after a user {case["where"]} function raised inside {case["via"]} (caught by the caller) and the seeded environment was stepped on, the global {nm} is no longer '
+                         f'in the state it was in before', {'kind': 'global_rng', 'which': nm})
+    ctx.ev.case(case, nt=True, classes=['raises:' + case['where'], 'via:' + case['via']])
+
+
 # ------------------------------------------------------------------ (4) reset functions through the Python API, across interpreters
 
 
@@ -507,6 +571,9 @@ CHECKS = [
     Check('components_rng', oracle_components, strategy=strat_components, examples={'quick': 300, 'thorough': 1200}, shards={'quick': 2, 'thorough': 16},
           rule='generated state (agent on a telepod with 2-3 same-coloured partners in half of the cases; obstacles) x chain x action x observation function with a seeded generator, run twice under differently seeded global generators: identical results, globals untouched',
           required=['teleport_choice>=2', 'obstacles_move', 'obs:stochastic_raytracing']),
+    Check('raising_components', oracle_raising, enumerate=enum_raising, shards={'quick': 2, 'thorough': 2}, exhaustive=True,
+          rule='a seeded GridWorld whose user-defined transition / reward function raises for one action, through step and functional_step; the caller catches and carries on: the global generators stay exactly as they were',
+          required=['raises:transition', 'raises:reward']),
     Check('cross_process_reset_functions', oracle_reset_x, strategy=strat_reset_x, examples={'quick': 60, 'thorough': 200}, shards={'quick': 4, 'thorough': 16},
           rule='reset functions called through the Python API (colours passed as a set) x parameters (as in C13) x seeds x 1-4 states from one generator: identical in worker interpreters with other PYTHONHASHSEED values',
           required=['reset:memory', 'reset:memory_rooms', 'colour_set>=3']),
